@@ -39,8 +39,20 @@ def depth(a: dict) -> int:
 
 
 def strip_newtype(a: dict) -> dict:
-    while a["k"] == "newtype":
+    while a["k"] in ("newtype", "annotated"):
         a = a["of"]
+    return a
+
+
+def erase_annotated(a: dict) -> dict:
+    """`Annotated[X, meta]` means X: the same annotation without the wrappers"""
+    if a["k"] == "annotated":
+        return erase_annotated(a["of"])
+    of = a.get("of")
+    if isinstance(of, dict):
+        return {**a, "of": erase_annotated(of)}
+    if isinstance(of, list):
+        return {**a, "of": [erase_annotated(x) for x in of]}
     return a
 
 
@@ -77,6 +89,7 @@ def _union_through_newtype(a: dict) -> bool:
 
 def classify_ref(a: dict) -> str:
     """'child' | 'property' | 'rejected' | 'child|rejected' (unspecified corner, never a property)"""
+    a = erase_annotated(a)
     v = _classify(a)
     if v == "child" and _union_through_newtype(a):
         return "child|rejected"
@@ -128,6 +141,8 @@ class Emitter:
             return "LateColor" if a.get("late") else "Color"  # LateColor is defined after the classes
         if k == "lit":
             return "Literal[" + ", ".join(repr(v) for v in a["vals"]) + "]"
+        if k == "annotated":
+            return f"Annotated[{self.expr(a['of'])}, {a.get('meta', 1)!r}]"
         if k == "newtype":
             name = f"NT{len(self.newtypes)}_{self.uid}"
             self.newtypes.append(f'{name} = NewType("{name}", {self.expr(a["of"])})')
@@ -176,7 +191,8 @@ class Emitter:
 
 
 def forward_ok_for_newtype(a: dict) -> bool:
-    return not contains(a, lambda x: (x["k"] == "node" and x["n"] == "Later") or (x["k"] == "enum" and x.get("late")))
+    return not contains(a, lambda x: (x["k"] == "node" and x["n"] == "Later") or (x["k"] == "enum" and x.get("late"))
+                        or x["k"] == "annotated")  # (typing does not look into a NewType's supertype)
 
 
 def default_for(a: dict) -> str:
@@ -213,7 +229,7 @@ def emit_module(classes: list[dict], postponed: bool, uid: int) -> tuple[str, Em
         body += c.get("extra", "")
     head = ("from __future__ import annotations\n" if postponed else "") + (
         "import enum\nfrom dataclasses import dataclass, field\n"
-        "from typing import Any, Literal, Mapping, NewType, Optional, Sequence, Union\n"
+        "from typing import Annotated, Any, Literal, Mapping, NewType, Optional, Sequence, Union\n"
         "from pyoak.node import ASTNode\nfrom pyoak.origin import NO_ORIGIN, Origin\n\n"
         "class Color(enum.Enum):\n    RED = 'red'\n    GREEN = 'green'\n\n"
         f"@dataclass(frozen=True)\nclass NodeA_{uid}(ASTNode):\n    n: int = 0\n\n"
@@ -348,6 +364,8 @@ def st_annotation(max_depth: int = 3, allow_forward: bool = True, allow_rejected
             st.tuples(scalars, inner).map(lambda t: {"k": "mapping", "of": [t[0], t[1]]}),
             inner.filter(forward_ok_for_newtype).map(lambda a: {"k": "newtype", "of": a}),
             inner.filter(forward_ok_for_newtype).map(lambda a: {"k": "newtype", "of": a}),
+            # Annotated[X, meta] is X (metadata that is a str is resolved like a forward reference by typing)
+            st.tuples(inner, st.sampled_from([1, 1, "doc", 2.5])).map(lambda t: {"k": "annotated", "of": t[0], "meta": t[1]}),
         ]
         if allow_rejected:
             # optional node types inside tuples, with None at every position of the union and in both
